@@ -18,6 +18,16 @@ from checks.c15 import extract
 RESP = b'HTTP/1.1 200 OK\r\nContent-Length: 2\r\n\r\nok'
 
 
+STALLERS = [
+    b'POST http://h.example/up HTTP/1.1\r\nHost: h.example\r\nContent-Length: 3\r\nContent-Length: 0\r\n\r\nabcdefghij',
+    b'POST http://h.example/up HTTP/1.1\r\nHost: h.example\r\nContent-Length: 3\r\nContent-Length: -5\r\n\r\nabcdefghij',
+    b'POST /up HTTP/1.1\r\nHost: h.example\r\nContent-Length: 3\r\nContent-Length: 0\r\n\r\nabcdefghij',
+    b'POST http://h.example/up HTTP/1.1\r\nHost: h.example\r\nTransfer-Encoding: chunked\r\n\r\n-3\r\nabcdefgh',
+    b'POST /up HTTP/1.1\r\nHost: h.example\r\nTransfer-Encoding: chunked\r\n\r\n-3\r\nabcdefgh',
+    b'POST http://h.example/up HTTP/1.1\r\nHost: h.example\r\nTransfer-Encoding: chunked\r\n\r\n3\r\nabc\r\n-1\r\nxyz\r\n0\r\n\r\n',
+]
+
+
 def inputs(rnd, n):
     lines = [b'GET http://h.example/x HTTP/1.1', b'POST http://h.example:8080/up HTTP/1.1', b'CONNECT h.example:443 HTTP/1.1',
              b'GET / HTTP/1.1', b'GET /missing HTTP/1.0', b'HEAD http://h.example/ HTTP/1.0']
@@ -34,9 +44,9 @@ def inputs(rnd, n):
             b'Content-Length: 3\r\nContent-Length: 0', b'Content-Length: 3\r\nContent-Length: -5', b'Content-Length: 0\r\nContent-Length: 3', b'content-length: 5\r\nCONTENT-LENGTH: 2']
     tails = [b'', b'abc', b'0\r\n\r\n', b'zz\r\nabc\r\n0\r\n\r\n', b'3\r\nabc', b'\xff\xff\xff', b'GET / HTTP/1.1\r\n\r\n']
     eols = [b'\r\n', b'\r\n', b'\r\n', b'\n', b'\r']
-    out = []
+    out = [(x, 'input that stalled the parser once') for x in STALLERS]
     for k in range(n):
-        mode = k % 5
+        mode = k % 6
         if mode == 0:       # valid line, mutated headers
             raw = rnd.choice(lines) + b'\r\n' + b''.join(h + rnd.choice(eols) for h in rnd.sample(hdrs, rnd.randrange(0, 4))) + b'\r\n' + rnd.choice(tails)
             kind = 'valid line / mutated headers'
@@ -50,6 +60,14 @@ def inputs(rnd, n):
         elif mode == 3:     # random bytes
             raw = bytes(rnd.getrandbits(8) for _ in range(rnd.choice([1, 7, 40, 300]))) + rnd.choice([b'', b'\r\n\r\n'])
             kind = 'random bytes'
+        elif mode == 5:     # framing fields spliced from a token vocabulary (signs, radix prefixes, blanks, repeated fields), token tails
+            vals = [b'0', b'3', b'-5', b'5', b'+3', b' 7', b'00', b'1_0', b'0x3', b'1e1', b'chunked', b'Chunked', b'gzip, chunked', b'', b'3, 3']
+            toks = [b'0\r\n\r\n', b'3\r\nabc\r\n', b'-3\r\n', b'+3\r\n', b'0x3\r\n', b' 3 \r\n', b'3;x=y\r\n', b'ffffffffffffffff\r\n', b'abc', b'\r\n', b'\n', b'\r',
+                    b'\x00', b'\xff', b'GET / HTTP/1.1\r\n\r\n', b'1_0\r\n', b'00\r\n\r\n']
+            raw = rnd.choice(lines) + b'\r\n' + b''.join(
+                rnd.choice([b'Content-Length', b'content-length', b'Transfer-Encoding', b'Host', b'X']) + rnd.choice([b':', b': ', b' : ']) + rnd.choice(vals) + b'\r\n'
+                for _ in range(rnd.randrange(0, 5))) + b'\r\n' + b''.join(rnd.choice(toks) for _ in range(rnd.randrange(0, 6)))
+            kind = 'framing token splice'
         else:               # byte-level mutation of a valid request
             full = bytearray(rnd.choice(lines) + b'\r\nHost: h.example\r\nX-A: b\r\n\r\n')
             for _ in range(rnd.randrange(1, 4)):
@@ -83,7 +101,7 @@ def run_inputs(chk, quick):
     from harness.common import pmap, Hung
     rnd = random.Random(chk.seed * 31 + 9)
     jobs = []
-    for raw, kind in inputs(rnd, 420 if quick else 2500):
+    for raw, kind in inputs(rnd, 420 if quick else 12000):
         for role_args, role in (([], 'proxy'), (['--enable-web-server'], 'proxy+web'), (['--enable-web-server', '--max-sendbuf-size', '24'], 'proxy+web, 24-byte sends')):
             if role.endswith('sends') and rnd.random() > 0.4:
                 continue
